@@ -2,6 +2,7 @@
 """seedtest.py [name-glob ...]  — runs the registered quick checks against each seeded change.
 Each patch is applied in a scratch worktree of /repo (outside /repo and /verif); gicheck is
 pointed at it with -repo. Prints which properties report a VIOLATION."""
+GICHECK = __import__("os").environ.get("GICHECK", "/verif/bin/gicheck")
 import fnmatch, json, os, subprocess, sys, tempfile, glob
 pats = sys.argv[1:] or ["*"]
 only = os.environ.get("PROPS")
@@ -21,7 +22,7 @@ for s in seeds:
         hit = []
         detail = []
         def one(p):
-            r = subprocess.run(f"/verif/bin/gicheck -property {p} -repo {wt} -verif /tmp/seedtest-verif", shell=True, capture_output=True, text=True)
+            r = subprocess.run(f"{GICHECK} -property {p} -repo {wt} -verif /tmp/seedtest-verif", shell=True, capture_output=True, text=True)
             if "VIOLATION property=" in r.stdout:
                 return p, [l for l in r.stdout.splitlines() if l.startswith(("VIOLATED", "UNDECIDED"))][:3]
             elif r.returncode != 0:
